@@ -118,6 +118,20 @@ class Lst(Val):
         return f"Lst{self.items}"
 
 
+class OneShot(Lst):
+    """An iterator the caller hands in (a generator, `zip(...)`, `iter(rows)`): its elements can be consumed once; every later
+    iteration finds it exhausted."""
+    __slots__ = ("consumed",)
+
+    def __init__(self, items):
+        super().__init__(items)
+        self.consumed = False
+
+    @property
+    def tag(self):
+        return "iter" + super().tag
+
+
 class Dct(Val):
     __slots__ = ("items", "shared_name", "keyvals")
 
